@@ -59,7 +59,8 @@ Inductive stage : Type :=
 | SSample (m : Z -> Z)                               (* multiplicity chosen by the sampler for an element *)
 | SPersist                                           (* persist() / cache(), nothing cached yet *)
 | SEager (withidx : bool) (h : list Z -> list Z)     (* mapPartitions[WithIndex] with a list-returning function *)
-| SGenSum.                                           (* mapPartitionsWithIndex(lambda i, it: (yield sum(it))) *)
+| SGenSum                                            (* mapPartitionsWithIndex(lambda i, it: (yield sum(it))) *)
+| SSilentMap (f : Z -> Z).                           (* keys() / values(): a map with a library lambda, no user function *)
 
 (* what an element-wise stage yields for one input element *)
 Definition kernel (st : stage) : option (Z -> list Z) :=
@@ -80,6 +81,14 @@ Fixpoint lazy_stage (s p : Z) (k : Z -> list Z) (j : Z) (t : trace) : trace :=
   | Out a :: t' => Ev (s, p, j, a) :: map Out (k a) ++ lazy_stage s p k (j + 1) t'
   end.
 
+(* a generator expression that applies a NON-user function: one output per pulled element, no event *)
+Fixpoint silent_stage (f : Z -> Z) (t : trace) : trace :=
+  match t with
+  | [] => []
+  | Ev e :: t' => Ev e :: silent_stage f t'
+  | Out a :: t' => Out (f a) :: silent_stage f t'
+  end.
+
 Definition zsum (l : list Z) : Z := fold_left Z.add l 0.
 
 (* the call of a partition-level function: with the partition index, or (plain mapPartitions) counted *)
@@ -94,6 +103,7 @@ Definition run_stage (s p : Z) (st : stage) (pt : ptrace) : ptrace :=
       PT (created pt ++ call_event s p wi :: events (body pt)) (map Out (h (outs (body pt))))
   | SGenSum =>
       PT (created pt) (Ev (s, p, 0, 0) :: map Ev (events (body pt)) ++ [Out (zsum (outs (body pt)))])
+  | SSilentMap f => PT (created pt) (silent_stage f (body pt))
   | _ =>
       match kernel st with
       | Some k => PT (created pt) (lazy_stage s p k 0 (body pt))
@@ -206,6 +216,7 @@ Definition sem_stage (st : stage) (xs : list Z) : list Z :=
   | SPersist => xs
   | SEager _ h => h xs
   | SGenSum => [zsum xs]
+  | SSilentMap f => map f xs
   | _ => match kernel st with Some k => flat_map k xs | None => xs end
   end.
 
@@ -369,6 +380,7 @@ Definition own_events (s p : Z) (st : stage) (xs : list Z) : list event :=
   | SPersist => []
   | SEager wi _ => [call_event s p wi]
   | SGenSum => [(s, p, 0, 0)]
+  | SSilentMap _ => []
   | _ => enum_events s p 0 xs
   end.
 
